@@ -79,22 +79,19 @@ theorem writeLoop_flatten : ∀ (fuel : Nat) (bs : Bytes) (ks : List Nat), bs.le
   | zero => intro bs ks h; simp at h; subst h; simp [writeLoop]
   | succ fuel ih =>
     intro bs ks h
-    by_cases h0 : bs.length = 0
-    · have : bs = [] := List.eq_nil_of_length_eq_zero h0
-      subst this; simp [writeLoop]
-    · simp only [writeLoop, h0, if_false, List.flatten_cons]
-      have hk : ∀ k : Nat, 1 ≤ k → (bs.drop k).length ≤ fuel := by
-        intro k hk; simp only [List.length_drop]; omega
+    cases bs with
+    | nil => simp [writeLoop]
+    | cons b bs =>
       cases ks with
-      | nil =>
-        simp only [List.tail_nil]
-        rw [ih _ _ (hk bs.length (by omega))]; simp
+      | nil => simp [writeLoop]
       | cons k ks =>
-        simp only [List.tail_cons]
+        simp only [writeLoop, List.isEmpty_cons, Bool.false_eq_true, if_false, List.flatten_cons]
+        have hk : ∀ k : Nat, 1 ≤ k → ((b :: bs).drop k).length ≤ fuel := by
+          intro k hk; simp only [List.length_drop, List.length_cons] at *; omega
         by_cases hz : k = 0
         · simp only [hz, if_true]
-          rw [ih _ _ (hk 1 (by omega))]; exact List.take_append_drop 1 bs
+          rw [ih _ _ (hk 1 (by omega))]; exact List.take_append_drop 1 (b :: bs)
         · simp only [hz, if_false]
-          rw [ih _ _ (hk (min k bs.length) (by omega))]; simp
+          rw [ih _ _ (hk k (by omega))]; exact List.take_append_drop k (b :: bs)
 
 end Dos.Framing
